@@ -212,6 +212,15 @@ pub fn stages(args: &Args, mode: Mode, allow_orient: bool) -> Vec<Stage> {
             n: args.n(24, 400),
         });
     }
+    // two displays alive at the same time on separate interfaces (a dashboard with two panels),
+    // driven alternately from one thread: nothing one display remembers may leak into the other
+    v.push(Stage {
+        name: "two-displays",
+        mode,
+        cfg: CfgOpts { external: true, l1: true, l2: true, max_l2_area: 24 * 24 },
+        prog: po(6, 600),
+        n: args.n(3000, 80_000),
+    });
     // Display::release() and a second display (often another model / colour depth of the same
     // framebuffer size) built on the same interface object, then more drawing
     v.push(Stage {
@@ -300,6 +309,10 @@ pub fn run_draw(args: &Args, prop: &'static str, mode: Mode, allow_orient: bool,
             }
             if st.name == "rebuild" {
                 rebuild_case(args, prop, &st, idx, &mut rng, cfg, po, want, a);
+                return;
+            }
+            if st.name == "two-displays" {
+                two_displays_case(&st, idx, &mut rng, cfg, po, want, a);
                 return;
             }
             let prog = if st.name == "long-history" {
@@ -474,6 +487,81 @@ fn rebuild_partners(m: crate::rig::ModelId) -> Vec<crate::rig::ModelId> {
         }
     }
     vec![m]
+}
+
+/// Two sessions (display + interface + controller simulator + reference each), stepped
+/// alternately. The second configuration is often "almost the same" as the first (same model,
+/// same window size, other offset / orientation), which is where shared state would be reused.
+fn two_displays_case(st: &Stage, idx: u64, rng: &mut Rng, cfg: DispCfg, po: ProgOpts, want: &[Attr], a: &mut Acc) {
+    let mut cfg2 = if rng.bool() {
+        let mut c = cfg.clone();
+        c.ori = crate::spec::Ori(rng.below(8) as u8);
+        c.bgr = rng.bool();
+        if rng.bool() {
+            let (fw, fh) = c.model.fb();
+            c.ox = rng.range(0, (fw - c.w) as i64) as u16;
+            c.oy = rng.range(0, (fh - c.h) as i64) as u16;
+        }
+        c
+    } else {
+        gen::gen_cfg(rng, &st.cfg)
+    };
+    if rng.bool() {
+        cfg2.tr = cfg.tr;
+    }
+    if !cfg2.tr.type_checks(cfg2.model.bits()) || (cfg2.model.is_builtin() && !cfg2.model.supports(cfg2.tr.kind())) {
+        cfg2 = cfg.clone();
+    }
+    let mut po = po;
+    po.allow_test_image = false;
+    let area = |c: &DispCfg| c.w as u64 * c.h as u64;
+    let prog1 = fix_clear_budget(gen::gen_program(rng, &cfg, &{ let mut p = clone_po(&po); if cfg.tr.is_l2() { p.max_px = p.max_px.min(st.cfg.max_l2_area) } if area(&cfg) > p.max_px { p.allow_clear = !cfg.tr.is_l2() } p }), &cfg, &po);
+    let prog2 = fix_clear_budget(gen::gen_program(rng, &cfg2, &{ let mut p = clone_po(&po); if cfg2.tr.is_l2() { p.max_px = p.max_px.min(st.cfg.max_l2_area) } if area(&cfg2) > p.max_px { p.allow_clear = !cfg2.tr.is_l2() } p }), &cfg2, &po);
+    // sometimes both displays get the *same* program (same windows, same colours)
+    let prog2 = if cfg2.w == cfg.w && cfg2.h == cfg.h && cfg2.ori.rot() % 2 == cfg.ori.rot() % 2 && cfg2.model.bits() == cfg.model.bits() && rng.bool() { prog1.clone() } else { prog2 };
+    let cj = || J::obj().with("display_a", case_json(&cfg, &prog1)).with("display_b", case_json(&cfg2, &prog2));
+    note_cfg(a, &cfg);
+    note_cfg(a, &cfg2);
+    let (mut sa, mut sb) = match (Session::open(&cfg), Session::open(&cfg2)) {
+        (Opened::Ready(x), Opened::Ready(y)) => (x, y),
+        _ => {
+            a.violate(st.name, idx, "init", "init of a valid configuration failed", cj());
+            return;
+        }
+    };
+    let (mut ia, mut ib) = (0usize, 0usize);
+    let mut bad = false;
+    while (ia < prog1.len() || ib < prog2.len()) && !bad {
+        // mostly strict alternation, sometimes two calls in a row on one display
+        let take_a = ib >= prog2.len() || (ia < prog1.len() && (ia <= ib || rng.chance(1, 4)));
+        let (s, op, which) = if take_a {
+            ia += 1;
+            (&mut sa, &prog1[ia - 1], "a")
+        } else {
+            ib += 1;
+            (&mut sb, &prog2[ib - 1], "b")
+        };
+        let rep = s.step(op);
+        a.count("driver_calls", 1);
+        for f in &rep.findings {
+            if want.contains(&attr(f)) {
+                bad = true;
+                a.violate(st.name, idx, format!("two-displays/{}/{}", op.name(), f.kind()), format!("display {} call {}: {}", which, if take_a { ia - 1 } else { ib - 1 }, f.describe()), cj());
+            }
+        }
+        if rep.result != crate::rig::CallResult::Ok {
+            break;
+        }
+    }
+    a.count("display_pairs_driven_alternately", 1);
+    a.count("ref_pixels_stored", sa.reffb.stored + sb.reffb.stored);
+    a.count("cells_compared", sa.compared_cells + sb.compared_cells);
+    let mut h = std::collections::hash_map::DefaultHasher::new();
+    std::hash::Hash::hash(&(case_hash(&cfg, &prog1), case_hash(&cfg2, &prog2)), &mut h);
+    a.case_hash(std::hash::Hasher::finish(&h), sa.reffb.stored + sb.reffb.stored > 0 && !bad);
+    if idx < 2 {
+        a.sample(cj().with("stage", st.name));
+    }
 }
 
 #[allow(clippy::too_many_arguments)]
